@@ -733,7 +733,30 @@ pub fn c15_persist(seed: u64) -> ConcCase {
 
 /// Engine-level concurrent histories: writers on overlapping tuples, maintenance, readers.
 /// `flavour`: 0 = C15 (writes + maintenance), 1 = C20 (batches + readers + rules), 2 = C17b (insert || drop || re-create), 3 = C19b (incremental readers)
+/// C17 schedule template: a writer that holds graph x's lock, a rule registration for x queued behind it,
+/// and a third thread that drops and re-creates x meanwhile - under the hold-one-thread-at-a-site strategy.
+fn c17_registration_race(seed: u64) -> ConcCase {
+    let mut rc = Rng::new(seed, P_CFG);
+    let mut rw = Rng::new(seed, P_WORK);
+    let kg = "x".to_string();
+    let setup = vec![COp::CreateKg { kg: kg.clone() }, COp::Insert { kg: kg.clone(), rel: "r".into(), tuples: vec![int_tuple(1, 2)] }];
+    let writer = vec![COp::Insert { kg: kg.clone(), rel: "r".into(), tuples: vec![int_tuple(100 + rw.range(1, 5) as i32, 0), int_tuple(200, 0)] }];
+    let registrar = vec![COp::RegisterRule { kg: kg.clone(), text: "d(X, Y) <- r(X, Y)".into() }];
+    let mut dropper = vec![COp::DropKg { kg: kg.clone() }, COp::CreateKg { kg: kg.clone() }];
+    if rw.chance(1, 2) {
+        dropper.push(COp::Read { kg: kg.clone(), rel: "r".into() });
+    }
+    let mut cfg = swarm_cfg(&mut rc, true);
+    cfg.num_threads = 1;
+    let mut rs = Rng::new(seed, 9);
+    let sched = if rw.chance(3, 4) { SchedSel::Hold { tid: 0, nth: rw.range(1, 30) } } else { gen_sched(&mut rs, 3) };
+    ConcCase { seed, cfg, level: "engine".into(), setup, threads: vec![writer, registrar, dropper], sched: Some(sched), sched_seed: rs.next(), ..Default::default() }
+}
+
 pub fn conc_engine(seed: u64, flavour: u64) -> ConcCase {
+    if flavour == 2 && seed % 5 == 4 {
+        return c17_registration_race(seed);
+    }
     let mut rc = Rng::new(seed, P_CFG);
     let mut rw = Rng::new(seed, P_WORK);
     let kg = if flavour == 2 { "x".to_string() } else { "default".to_string() };
